@@ -7,6 +7,7 @@ decodes run in between (the conversion must not depend on them).
 from .. import model, real
 from ..runner import HarnessError, Result
 from . import common
+from ..layout import layout
 
 ID = "C11"
 LEVEL = "exploration"
@@ -32,11 +33,15 @@ def make_case(i, rng, tier):
         raise HarnessError("generator produced a malformed input")
     if inp["root"] == model.STREAM:
         return None
+    thr = rng.randrange(1 << 30) if rng.random() < 0.003 else None
     main = common.spec("main", inp, strict=True)
     sweep = common.enc_sweep_specs(rng, gen.Gen(rng, k), rng.choice((0, 0, 1, 2)))
     tasks, sched = common.perturb(rng, [main] + sweep, p_by=0.3)
     return {"input": {"root": inp["root"], "cc": inp["cc"], "enc": inp["enc"], "label": inp["label"],
-                      "later": rng.randrange(64) if rng.random() < 0.05 else None},
+                      "later": rng.randrange(64) if rng.random() < 0.05 else None,
+                      "threads": thr,
+                      "thread_extra": [common.spec("x%d" % j_, common.gen_input(rng, ("response", rng.choice(sorted(layout().commands)), None, False, False)), strict=True)
+                                       for j_ in range(2)] if thr is not None else []},
             "tasks": tasks, "schedule": sched}
 
 
@@ -146,6 +151,11 @@ def check(case):
         convert_later(res, case["input"]["later"], label)
     if hasattr(o1, "__dataclass_fields__") and (s.get("enc") or label.endswith(":e1")):
         remember(label, E, o1, cc, (case.get("_run") or {}).get("index", 0))
+    if case["input"].get("threads") is not None and len(s["data"]) < 3000:
+        others = [t_ for t_ in case["tasks"] if t_["id"] != "main" and t_.get("kind") != "api-noise"][:2]
+        others = (case["input"].get("thread_extra") or []) + others[:1]
+        common.check_threads(res, "C11", [dict(s, id="t0"), dict(s, id="t1")] + [dict(o_, id="o%d" % n_) for n_, o_ in enumerate(others)],
+                             case["input"]["threads"], label=label)
     res.nontrivial(s["type"], s.get("cc"), s.get("enc"), s["data"])
     return res
 
